@@ -523,8 +523,12 @@ func (m *Model) Advance(u *universe, op Op, ok bool) {
 	case "Commit":
 		up := m.Uploads[op.H]
 		if ok && op.Off == "recommit" {
-			// the digest of the first commit offered again: whatever the registry answers, that digest keeps
-			// naming the bytes it named (nothing changes in the model)
+			// the digest of the first commit offered again. If the session still holds exactly those bytes,
+			// an accepted commit stores them (again, should they have been deleted meanwhile); if it holds
+			// anything else, that digest keeps naming the bytes it named: nothing changes in the model.
+			if string(up.Buf) == string(up.Committed) && (up.State == "open" || up.State == "committed") {
+				m.repo(up.Repo, true).Blobs[sha256Digest(up.Buf)] = &mBlob{Data: up.Buf, MT: mtOctet}
+			}
 			return
 		}
 		if ok && up.State == "open" {
